@@ -222,7 +222,8 @@ def execute(w, seed, strategy="random", forced=None, strict=False):
                 elif ft == "stalled_source":
                     ok = type(e).__name__ == "InputTimeoutExceeded"
                 if not ok:
-                    vio = Violation("EXC_MASKED", f"{ft}: caller got {sig_of_exception(e)}", repr(e)[:800])
+                    vio = Violation("EXC_MASKED", f"{ft} [{w['cfg']['processor']}]: caller got "
+                                                  f"{sig_of_exception(e)}", repr(e)[:800])
             if vio is None and alive_at_return:
                 vio = Violation("THREADS_ALIVE", f"{ft}: pipeline threads alive after the call returned",
                                 alive_at_return)
